@@ -778,6 +778,18 @@ def validate_tensor_py(cls):
         raise Untranslatable("tensor.py: zero_ is not a single `self.grad = ...`")
 
 
+def children_flag(cls):
+    """Tensor.__init__ stores `children` only when the result requires grad (so the walk of backward, which follows
+    `_children`, never crosses a value computed under no_grad / from non-requiring operands)"""
+    for st in cls.body:
+        if isinstance(st, ast.FunctionDef) and st.name == "__init__":
+            stores = [n for n in ast.walk(st) if isinstance(n, ast.Assign) and any(U(t) == "self._children" for t in n.targets)]
+            reqs = [n for n in ast.walk(st) if isinstance(n, ast.Assign) and any(U(t) == "req_grad" for t in n.targets)]
+            return (len(stores) == 1 and U(stores[0].value) == "children if req_grad else ()"
+                    and len(reqs) == 1 and U(reqs[0].value) == "requires_grad and gradient__")
+    return False
+
+
 def load(rel):
     path = os.path.join(common.REPO, rel)
     return path, ast.parse(open(path).read())
@@ -845,6 +857,7 @@ def translate_all():
             jobs.append(("tensor", "tensor." + st.name, st, ps, tensorish_names(st) & set(ps), (), "initialiser", None))
         if isinstance(st, ast.ClassDef) and st.name == "Tensor":
             validate_tensor_py(st)
+            R.children_flag = children_flag(st)
             for m in st.body:
                 if isinstance(m, ast.FunctionDef) and m.name in TENSOR_METHODS:
                     ps = fn_params(m)
@@ -884,6 +897,7 @@ def translate_all():
             T.stmts(F, fn, fn.body)
         used_np |= T.used_np; used_methods |= T.used_methods
         funs.append(F)
+    translate_all.children_flag = R.children_flag
     return funs, sorted(used_np), sorted(used_methods)
 
 
@@ -1050,6 +1064,9 @@ def emit(funs, rows):
             out.append("(* IR parameters of Tensor.backward, in order *)")
             out.append("Definition backward_layout : list string := [%s]." % "; ".join(coq_str(p + f) for p, f in F.arg_layout()))
             out.append("")
+    out.append("(* Tensor.__init__: `self._children = children if req_grad else ()` with `req_grad = requires_grad and gradient__` *)")
+    out.append("Definition untracked_results_keep_no_children : bool := %s." % ("true" if translate_all.children_flag else "false"))
+    out.append("")
     out.append("(* census of statements that change tensor data / gradient buffers, whole package: (module, function, kind, line) *)")
     out.append("Definition mutator_census : list census_row := [")
     out.append(";\n".join("  (%s, %s, %s, %d)   (* %s : %s *)" % (coq_str(r["module"]), coq_str(r["function"]), coq_str(r["kind"]),
